@@ -6,6 +6,7 @@ import (
 	"fmt"
 	"go/token"
 	"go/types"
+	"sort"
 
 	"golang.org/x/tools/go/ssa"
 )
@@ -653,11 +654,12 @@ func (g *Gen) interference(h *Heap, guard string, why string) *Heap {
 		i := lastDot(key)
 		names = append(names, fieldVar(key[:i], key[i+1:]))
 	}
-	for _, gd := range g.specs.Ghosts {
+	for _, gd := range g.specs.sortedGhosts() {
 		if gd.Kind == "ghost" && gd.Monotone {
 			names = append(names, "G."+gd.Name)
 		}
 	}
+	sort.Strings(names)
 	if len(names) == 0 {
 		return h
 	}
